@@ -455,6 +455,73 @@ enumerate(void)
 				h2g_year(s, HY);
 			}
 		}
+	} else if (!strcmp(mode, "interleave")) {
+		/* history independence: a conversion must not depend on which conversion (into which scale, of which
+		 * day) was done before it.  R[s][day] is taken scale by scale (the order the g2h mode validates), then
+		 * for every ordered pair of scales (s1, s2), every day z of the year and every distance dz the calls
+		 * g(z) -> s1, g(z + dz) -> s2, R[s2][z + dz] -> Gregorian are made back to back and compared with R and g */
+		static const int dz[] = {0, 1, -1, 40, -400};
+		static uint64_t R[SCALE_HIJRI_DIYANET + 1][366 + 802], B[SCALE_HIJRI_DIYANET + 1][366 + 802];
+		for (int Y = y0; Y <= y1; Y++) {
+			const long zbeg = cvl_days(Y, 1, 1), zend = cvl_days(Y, 12, 31);
+			if (!vd_next()) continue;
+			vd_desc("interleave: all ordered pairs of scales over every day of Gregorian year %d", Y);
+			vd_shape("interleave");
+			for (int s2 = SCALE_HIJRI_IA; s2 <= SCALE_HIJRI_DIYANET; s2++) {
+				for (long z = zbeg - 401; z <= zend + 400; z++) {
+					const struct cvl_ymd_s c = cvl_civil(z);
+					echs_instant_t h;
+					if (c.y < 1901 || c.y > 2099) { R[s2][z - zbeg + 401] = 0; continue; }
+					h = echs_instant_rescale(mkinst(SCALE_GREGORIAN, c.y, c.m, c.d), (echs_scale_t)s2);
+					R[s2][z - zbeg + 401] = h.u;
+					B[s2][z - zbeg + 401] = echs_nul_instant_p(h) ? 0 : echs_instant_rescale(h, SCALE_GREGORIAN).u;
+				}
+			}
+			for (int s1 = SCALE_HIJRI_IA; s1 <= SCALE_HIJRI_DIYANET; s1++) {
+				for (int s2 = SCALE_HIJRI_IA; s2 <= SCALE_HIJRI_DIYANET; s2++) {
+					int reported = 0;
+					if (s1 == s2) continue;
+					vd_beat();
+					for (long z = zbeg; z <= zend && !reported; z++) {
+						const struct cvl_ymd_s c = cvl_civil(z);
+						const echs_instant_t g1 = mkinst(SCALE_GREGORIAN, c.y, c.m, c.d);
+						for (size_t k = 0; k < sizeof(dz) / sizeof(*dz); k++) {
+							const long z2 = z + dz[k];
+							const struct cvl_ymd_s c2 = cvl_civil(z2);
+							echs_instant_t g2, h2, want, back;
+							char sig[160], b1[32], b2[32], b3[32];
+							if (c2.y < 1901 || c2.y > 2099) continue;
+							g2 = mkinst(SCALE_GREGORIAN, c2.y, c2.m, c2.d);
+							want.u = R[s2][z2 - zbeg + 401];
+							vd_sh->evals += 3;
+							(void)echs_instant_rescale(g1, (echs_scale_t)s1);
+							h2 = echs_instant_rescale(g2, (echs_scale_t)s2);
+							if (h2.u != want.u) {
+								snprintf(sig, sizeof(sig), "history/g2h/%s-after-%s", tname[s2], tname[s1]);
+								vd_viol(sig, "%04d-%02d-%02d -> %s gives %s on its own but %s right after %04d-%02d-%02d -> %s",
+									c2.y, c2.m, c2.d, sname[s2], hstr(b1, sizeof(b1), want), hstr(b2, sizeof(b2), h2), c.y, c.m, c.d, sname[s1]);
+								reported = 1;
+								break;
+							}
+							if (echs_nul_instant_p(want)) continue;
+							(void)echs_instant_rescale(g1, (echs_scale_t)s1);
+							back = echs_instant_rescale(want, SCALE_GREGORIAN);
+							if (back.u != B[s2][z2 - zbeg + 401]) {
+								echs_instant_t alone;
+								alone.u = B[s2][z2 - zbeg + 401];
+								snprintf(sig, sizeof(sig), "history/h2g/%s-after-%s", tname[s2], tname[s1]);
+								vd_viol(sig, "%s %s -> Gregorian gives %s on its own but %s right after %04d-%02d-%02d -> %s",
+									sname[s2], hstr(b1, sizeof(b1), want), hstr(b2, sizeof(b2), alone), hstr(b3, sizeof(b3), back), c.y, c.m, c.d, sname[s1]);
+								reported = 1;
+								break;
+							}
+						}
+					}
+				}
+			}
+			NONTRIVIAL();
+			vd_sample("interleave: 90 ordered scale pairs x every day of %d x 5 distances", Y);
+		}
 	} else if (!strcmp(mode, "edge")) {
 		/* by-catch: month lengths asked for outside the tables must not crash */
 		for (int s = SCALE_HIJRI_UMMULQURA; s <= SCALE_HIJRI_DIYANET; s++) {
